@@ -367,8 +367,148 @@ def eval_replay(case, ctx):
         shutil.rmtree(d, ignore_errors=True)
 
 
+def reuse_argv(sc, paths, out, saves, extra):
+    argv = ["--reference", paths["fasta"], "-o", out, "--genedb", paths["gtf"], "--complete_genedb",
+            "--read_assignments", saves] + list(sc["opts"]) + list(extra)
+    return argv
+
+
+def shared_saves_history(sc, d, paths, extra, saves, clean_out, case, ctx, n=None):
+    """Run B (restarted from the saves) is killed after its mutation k1 and abandoned; run C - another run restarted
+    from the same saves, own output folder - is killed before/after its mutation k2 and resumed. C must finish with the
+    outputs of an undisturbed run restarted from those saves."""
+    k1, k2, mode2 = case["k"], case["k2"], case["mode2"]
+    outb = os.path.join(d, "B_%d_%d" % (k1, k2))
+    outc = os.path.join(d, "C_%d_%d" % (k1, k2))
+    hb, hc = outb + "_home", outc + "_home"
+    aux = os.path.dirname(saves)
+    before = set(os.listdir(aux))
+    try:
+        ctx.pipeline_runs += 2
+        code = run.run_fork(reuse_argv(sc, paths, outb, saves, extra), hb, os.path.join(d, "B.log"),
+                            env={"ABLAB_ISOQUANT_VERIF": "1"}, pre=lambda: crashwrap.install(k1, "after", None))
+        if code != crashwrap.EXIT_CODE:
+            ctx.note("first_kill_not_reached")
+        code = run.run_fork(reuse_argv(sc, paths, outc, saves, extra), hc, os.path.join(d, "C.log"),
+                            env={"ABLAB_ISOQUANT_VERIF": "1"}, pre=lambda: crashwrap.install(k2, mode2, None))
+        if code != crashwrap.EXIT_CODE:
+            ctx.note("crash_point_not_reached" if code == 0 else "crash_run_exit_%s" % code)
+            return
+        ctx.pipeline_runs += 1
+        rlog = os.path.join(d, "Cresume.log")
+        rcode = run.run_fork(["--resume", "-o", outc], hc, rlog)
+        det = {"k1": k1, "of": n, "k2": k2, "mode2": mode2, "mutation": case["label"]}
+        if rcode != 0:
+            r = pipeline.Result(d, rcode, outc, paths, rlog)
+            ctx.violation("C07:resume-aborts:%s:next-to-an-abandoned-run-on-the-same-saves" %
+                          r.crash_signature().split("@")[0], dict(det, exit=rcode, log=r.log_tail(6)), case)
+        else:
+            for kind, f, dd in compare.diff_dirs(clean_out, "OUT0", outc, "OUT0"):
+                ctx.violation("C07:resumed-output-%s:%s:next-to-an-abandoned-run-on-the-same-saves" % (
+                    "differs" if kind == "content" else "missing" if kind == "only-in-first" else "extra", f),
+                    dict(det, file=f, detail=dd), case)
+    finally:
+        for o in (outb, outc, hb, hc):
+            shutil.rmtree(o, ignore_errors=True)
+        # whatever the two runs left next to the saves is removed: every history starts from the same saved run
+        for f in set(os.listdir(aux)) - before:
+            os.remove(os.path.join(aux, f))
+
+
+def saved_run(sc, d, ctx):
+    paths, extra = prepare(sc, d)
+    first = os.path.join(d, "first")
+    ctx.pipeline_runs += 1
+    fresh_reference(paths)
+    opts = [o for o in sc["opts"] if o != "--keep_tmp"] + ["--keep_tmp"]
+    if run.run_fork(build.base_argv(dict(sc, opts=opts), paths, first, extra), os.path.join(d, "home_first"),
+                    os.path.join(d, "first.log")) != 0:
+        return None
+    saves = os.path.join(first, "OUT", "aux", "OUT.save")
+    gextra = [e for e in extra] if sc["grouping"] == "tag" else []
+    clean_out = os.path.join(d, "clean")
+    ctx.pipeline_runs += 1
+    if run.run_fork(reuse_argv(sc, paths, clean_out, saves, gextra), os.path.join(d, "home_clean"),
+                    os.path.join(d, "clean.log")) != 0:
+        return None
+    return paths, gextra, saves, clean_out
+
+
+def run_shared_saves(shard, nshards, seed, n, ctx, tier="quick"):
+    n_scen = 1 if tier == "quick" else 4
+    base_seed = int(os.environ.get("VERIF_SEED", "1") or 1)
+    counter = {"i": 0}
+
+    @hypothesis.seed(base_seed * 7919 + 29)
+    @settings(max_examples=n_scen, database=None, deadline=None, suppress_health_check=list(HealthCheck),
+              phases=[hypothesis.Phase.generate])
+    @given(scenarios())
+    def body(sc):
+        i = counter["i"]
+        counter["i"] += 1
+        sc["grouping"] = ["tag", "none"][i % 2]
+        sc["gz_reference"] = False
+        sc["stale_dir"] = False
+        d = ctx.scratch()
+        try:
+            got = saved_run(sc, d, ctx)
+            if got is None:
+                ctx.note("saved_run_failed")
+                return
+            paths, gextra, saves, clean_out = got
+            lab = os.path.join(d, "labels.txt")
+            list_out = os.path.join(d, "listing")
+            aux = os.path.dirname(saves)
+            before = set(os.listdir(aux))
+            ctx.pipeline_runs += 1
+            code = run.run_fork(reuse_argv(sc, paths, list_out, saves, gextra), os.path.join(d, "home_list"),
+                                os.path.join(d, "list.log"), env={"ABLAB_ISOQUANT_VERIF": "1"},
+                                pre=lambda: crashwrap.install(0, "before", lab))
+            for f in set(os.listdir(aux)) - before:
+                os.remove(os.path.join(aux, f))
+            if code != 0 or not os.path.exists(lab):
+                ctx.harness_errors.append("instrumented listing run (restart from saves) failed")
+                return
+            labels = [l.rstrip("\n").split("\t", 1)[1] for l in open(lab)]
+            shutil.rmtree(list_out, ignore_errors=True)
+            m = len(labels)
+            ctx.sample({"scenario": pipeline.summarize(sc), "mutation_points_of_a_restart": m,
+                        "labels_head": labels[:8]}, limit=1)
+            for k1 in range(1, m + 1):
+                if (k1 - 1) % nshards != shard:
+                    continue
+                for k2, mode2 in ((1 + (k1 * 5) % max(1, k1), "after"), (1 + (k1 * 11 + 3) % max(1, k1), "before"),
+                                  (1 + (k1 * 7) % m, "after")):
+                    ctx.evaluations += 1
+                    ctx.cls("mode=shared_saves", "second_kill_%s_first" % ("before" if k2 <= k1 else "after"))
+                    ctx.nontrivial_n += 1
+                    case = {"scenario": sc, "k": k1, "k2": k2, "mode2": mode2, "label": labels[k2 - 1],
+                            "history": "shared_saves"}
+                    shared_saves_history(sc, d, paths, gextra, saves, clean_out, case, ctx, m)
+        finally:
+            shutil.rmtree(d, ignore_errors=True)
+    body()
+
+
+def eval_shared_replay(case, ctx):
+    sc = case["scenario"]
+    d = ctx.scratch()
+    try:
+        got = saved_run(sc, d, ctx)
+        if got is None:
+            ctx.harness_errors.append("saved run failed in replay")
+            return
+        paths, gextra, saves, clean_out = got
+        shared_saves_history(sc, d, paths, gextra, saves, clean_out, case, ctx)
+    finally:
+        shutil.rmtree(d, ignore_errors=True)
+
+
 def stages(tier):
     q = tier == "quick"
     return [Stage("crashpoints", "func", eval_replay, n=16,
                   run=lambda shard, nshards, seed, n, ctx: run_enumeration(shard, nshards, seed, n, ctx, tier),
-                  exhaustive=True)]
+                  exhaustive=True),
+            Stage("shared_saves", "func", eval_shared_replay, n=16,
+                  run=lambda shard, nshards, seed, n, ctx: run_shared_saves(shard, nshards, seed, n, ctx, tier),
+                  exhaustive=False)]
